@@ -8,7 +8,7 @@ import os
 import re
 
 from .cfg import cfg_of
-from .core import AnalysisError, ClassInfo, FuncInfo, Program, call_name, dotted, unparse, walk_no_nested
+from .core import seq, AnalysisError, ClassInfo, FuncInfo, Program, call_name, dotted, unparse, walk_no_nested
 from .report import Ctx
 
 PYX = '/venv/lib/python3.12/site-packages/cythonbiogeme/cpp/cythonbiogeme.pyx'
@@ -522,7 +522,7 @@ for _B in my_betas:
         good = m_node(_parse('[{my_betas[_I]: _V for _I, _V in enumerate(_ROW)} for _ROW in __M[:, _IDX]]')[0].value, c, b)
         if good:
             # the columns are those of the requested names, in the order of the request
-            defs = [a for a in walk_no_nested(f.node) if isinstance(a, ast.Assign) and unparse(a.targets[0]) == b['_IDX'] and a.lineno < c.lineno]
+            defs = [a for a in walk_no_nested(f.node) if isinstance(a, ast.Assign) and unparse(a.targets[0]) == b['_IDX'] and seq(a) < seq(c)]
             good = bool(defs) and all(m_node(_parse('[self.data.betaNames.index(_B) for _B in my_betas]')[0].value, a.value, {}) for a in defs)
         if not good:
             ok = False
